@@ -415,6 +415,12 @@ pub fn gen_history(rng: &mut Rng, o: &GenOpts) -> (WorldCfg, Vec<Op>) {
             14 => {
                 if o.exhaust && g.rng.chance(1, 2) {
                     exhaust(&mut g, b, &mut ops);
+                    // one more change of the bar while the limiter has nothing left (the bar may already be
+                    // finished: its last state is what has to be on the screen after the drop)
+                    if g.rng.chance(1, 2) {
+                        let t = g.bar_text(b, 'm');
+                        ops.push(if g.rng.chance(1, 2) { Op::Msg(b, t) } else { Op::Prefix(b, t) });
+                    }
                 }
                 ops.push(Op::DropBar(b));
                 live.retain(|x| *x != b);
